@@ -44,7 +44,7 @@ EXPLORE_OPS = histgen.CONTENT_OPS + ["add_module", "stub_toggle", "to_package", 
 def gen(ctx: common.Ctx, n_hist: int, steps: tuple[int, int], all_configs: bool, explore: bool = False) -> Iterator[dict[str, Any]]:
     """core (explore=False): seed-independent histories over all edit operators; exploration: VERIF_SEED-dependent histories."""
     cfgs = list(CONFIGS)
-    tag = ("C02x", ctx.seed) if explore else ("C02", "core")
+    tag = ("C02x", ctx.seed) if explore else ("C02", "core" if ctx.tier == "quick" else "tcore")
     for k in range(n_hist):
         r = common.rng_for(*tag, "h", k)
         n = r.randint(*steps)
@@ -65,7 +65,7 @@ def gen(ctx: common.Ctx, n_hist: int, steps: tuple[int, int], all_configs: bool,
                    "args": {"versions": h["versions"], "flags": flags, "targets": targets, "config": cfg, "skip_runs": skip,
                             "mtime_back": h["mtime_back"],
                             "true_cold_steps": [i for i in range(n) if ctx.tier == "thorough" and (i + k) % 10 == 0]},
-                   "_k": ("x" if explore else "core") + str(k), "_ops": h["ops"], "_cfg": cfg, "_skip": skip}
+                   "_k": ("x" if explore else "core" if ctx.tier == "quick" else "tcore") + str(k), "_ops": h["ops"], "_cfg": cfg, "_skip": skip}
 
 
 def gen_corpus(ctx: common.Ctx, n: int) -> Iterator[dict[str, Any]]:
